@@ -129,6 +129,35 @@ pub struct Findings {
     pub entries: Vec<FindingEntry>,
 }
 
+static KNOWN_SIGS: std::sync::OnceLock<Vec<(String, String)>> = std::sync::OnceLock::new();
+
+/// signatures listed as `known` for the property being checked (set once in main)
+pub fn set_known_signatures(f: &Findings, prop: &str) {
+    let v = f
+        .entries
+        .iter()
+        .filter(|e| e.status == "known" && e.property == prop)
+        .map(|e| (e.signature.clone(), e.what.clone()))
+        .collect();
+    let _ = KNOWN_SIGS.set(v);
+}
+
+/// Inside a check that examines many sub-inputs per case: a failure whose signature is a
+/// listed known finding is recorded and the check goes on; anything else is returned.
+pub fn tolerate_known(obs: &mut Obs, fail: Fail) -> Result<(), Fail> {
+    let known = KNOWN_SIGS.get().and_then(|v| v.iter().find(|(s, _)| *s == fail.signature));
+    match known {
+        Some((s, w)) => {
+            if !obs.known_hits.iter().any(|(x, _)| x == s) {
+                obs.known_hits.push((s.clone(), w.clone()));
+            }
+            obs.excluded += 1;
+            Ok(())
+        }
+        None => Err(fail),
+    }
+}
+
 impl Findings {
     pub fn load(verif_dir: &std::path::Path) -> Findings {
         let p = verif_dir.join("known_findings.json");
